@@ -585,3 +585,61 @@ Proof.
     lia.
   - rewrite take_eq. cbn [fst]. discriminate.
 Qed.
+
+(* ---------------------------------------------------------------- single-item corollaries *)
+Lemma object_roundtrip (b : list byte) mx : blen b <= mx -> blen b < W64 ->
+  let w := write_object (empty_stream mx) b in
+  output w = (b, false) /\
+  exists s', read_object (input_stream (fst (output w))) (blen b) = (RBytes b, s')
+             /\ good s' = true /\ ms_pos s' = ms_len s'.
+Proof.
+  intros H1 H2.
+  destruct (stream_roundtrip [IObj b] mx) as (Ho & _ & _ & s' & Hr & Hg & Hp & _).
+  - repeat constructor.
+  - repeat constructor.
+  - unfold enc_all. cbn [map concat enc]. now rewrite app_nil_r.
+  - unfold enc_all. cbn [map concat enc]. now rewrite app_nil_r.
+  - unfold enc_all in *. cbn [map concat enc write_items fold_left write_item shape_of read_items read_shape] in *.
+    rewrite app_nil_r in *. split; [exact Ho|].
+    destruct (read_object _ _) as [r s1] eqn:E. destruct r; cbn [item_of] in Hr; try discriminate.
+    exists s1. inversion Hr; subst. auto.
+Qed.
+
+Lemma string_roundtrip (b : list byte) mx : 8 + blen b <= mx -> 8 + blen b < W64 ->
+  let w := write_string (empty_stream mx) b in
+  output w = (le64 (blen b) ++ b, false) /\
+  exists s', read_string (input_stream (fst (output w))) = (RBytes b, s')
+             /\ good s' = true /\ ms_pos s' = ms_len s'.
+Proof.
+  intros H1 H2.
+  destruct (stream_roundtrip [IStr b] mx) as (Ho & _ & _ & s' & Hr & Hg & Hp & _).
+  - repeat constructor. cbn [item_ok]. exact H2.
+  - repeat constructor.
+  - unfold enc_all. cbn [map concat enc]. rewrite app_nil_r, blen_app, blen_le64. exact H1.
+  - unfold enc_all. cbn [map concat enc]. rewrite app_nil_r, blen_app, blen_le64. exact H2.
+  - unfold enc_all in *. cbn [map concat enc write_items fold_left write_item shape_of read_items read_shape] in *.
+    rewrite app_nil_r in *. split; [exact Ho|].
+    destruct (read_string _) as [r s1] eqn:E. destruct r; cbn [item_of] in Hr; try discriminate.
+    exists s1. inversion Hr; subst. auto.
+Qed.
+
+Lemma vector8_roundtrip (es : list (list byte)) mx : Forall (fun e => blen e = 8) es ->
+  8 * blen es <= PTRDIFF_MAX -> 8 + 8 * blen es <= mx ->
+  let w := write_vector (empty_stream mx) 8 es in
+  output w = (le64 (blen es) ++ concat es, false) /\
+  exists s', read_vector (input_stream (fst (output w))) 8 = (RVec es, s')
+             /\ good s' = true /\ ms_pos s' = ms_len s'.
+Proof.
+  intros Hes Hm H1.
+  assert (Hc := blen_concat 8 es Hes).
+  destruct (stream_roundtrip [IVec 8 es] mx) as (Ho & _ & _ & s' & Hr & Hg & Hp & _).
+  - repeat constructor; auto.
+  - repeat constructor.
+  - unfold enc_all. cbn [map concat enc]. rewrite app_nil_r, blen_app, blen_le64. lia.
+  - unfold enc_all. cbn [map concat enc]. rewrite app_nil_r, blen_app, blen_le64.
+    unfold PTRDIFF_MAX, W64 in *. lia.
+  - unfold enc_all in *. cbn [map concat enc write_items fold_left write_item shape_of read_items read_shape] in *.
+    rewrite app_nil_r in *. split; [exact Ho|].
+    destruct (read_vector _ _) as [r s1] eqn:E. destruct r; cbn [item_of] in Hr; try discriminate.
+    exists s1. inversion Hr; subst. auto.
+Qed.
